@@ -100,25 +100,53 @@ func (c *Ctx) bitStorageLayout() bsLayout {
 	return l
 }
 
-// divisorFields: the receiver fields fn divides by (x / b.f, x % b.f).
-func divisorFields(fn *ssa.Function) []string {
-	var out []string
-	if len(fn.Params) == 0 {
-		return nil
+// helperEffects: what a method does to its receiver, including the methods it
+// calls on the same receiver (depth 2): the fields it divides by, whether it
+// reads / writes elements of the given slice field.
+type bsEffects struct {
+	divisors      []string
+	reads, writes bool
+}
+
+func helperEffects(fn *ssa.Function, dataField string, depth int) bsEffects {
+	var e bsEffects
+	if len(fn.Params) == 0 || depth > 2 {
+		return e
 	}
+	recv := fn.Params[0]
 	for _, b := range fn.Blocks {
 		for _, in := range b.Instrs {
-			bo, ok := in.(*ssa.BinOp)
-			if !ok || (bo.Op != token.QUO && bo.Op != token.REM) {
-				continue
-			}
-			if p := rootFieldOfAddr(loadAddr(stripConv(bo.Y)), fn.Params[0]); p != "" {
-				out = append(out, p)
+			switch x := in.(type) {
+			case *ssa.BinOp:
+				if x.Op == token.QUO || x.Op == token.REM {
+					if p := rootFieldOfAddr(loadAddr(stripConv(x.Y)), recv); p != "" {
+						e.divisors = append(e.divisors, p)
+					}
+				}
+			case *ssa.IndexAddr:
+				if rootFieldOfAddr(x.X, recv) == dataField {
+					e.reads = true
+				}
+			case *ssa.Store:
+				if ia, ok := x.Addr.(*ssa.IndexAddr); ok && rootFieldOfAddr(ia.X, recv) == dataField {
+					e.writes = true
+				}
+			case *ssa.Call:
+				sc := x.Common().StaticCallee()
+				if sc == nil || len(x.Common().Args) == 0 || x.Common().Args[0] != ssa.Value(recv) || core.Origin(sc) == fn {
+					continue
+				}
+				sub := helperEffects(core.Origin(sc), dataField, depth+1)
+				e.divisors = append(e.divisors, sub.divisors...)
+				e.reads = e.reads || sub.reads
+				e.writes = e.writes || sub.writes
 			}
 		}
 	}
-	return out
+	return e
 }
+
+func divisorFields(fn *ssa.Function) []string { return helperEffects(fn, "", 0).divisors }
 
 // BitStorageGuards: C11 - at every access of the packed data in Get/Set/Swap
 // the index parameter is proven in [0, length-1] and (for writes) the value in
@@ -159,11 +187,7 @@ func (c *Ctx) BitStorageGuards() []core.Ob {
 			}
 		}
 		t.Probe(fn, func(in ssa.Instruction, eval func(ssa.Value) AV, locAV func(string) (AV, bool)) {
-			switch x := in.(type) {
-			case *ssa.IndexAddr:
-				if rootFieldOfAddr(x.X, recv) != lay.data {
-					return
-				}
+			checkIndex := func(pos token.Pos, where string) {
 				nAcc++
 				av := eval(idxParam)
 				ok := nonNeg(av.all())
@@ -174,13 +198,10 @@ func (c *Ctx) BitStorageGuards() []core.Ob {
 					}
 				}
 				if !ok || !bounded {
-					io.Status, io.Got, io.Pos = core.Violated, "at the access, i is only known to be "+av.String(), c.P.Pos(x.Pos())
+					io.Status, io.Got, io.Pos = core.Violated, where+", i is only known to be "+av.String(), c.P.Pos(pos)
 				}
-			case *ssa.Store:
-				ia, isIA := x.Addr.(*ssa.IndexAddr)
-				if !isIA || rootFieldOfAddr(ia.X, recv) != lay.data || valParam == nil {
-					return
-				}
+			}
+			checkValue := func(pos token.Pos, where string) {
 				nStore++
 				av := eval(valParam)
 				ok := nonNeg(av.all())
@@ -191,8 +212,21 @@ func (c *Ctx) BitStorageGuards() []core.Ob {
 					}
 				}
 				if !ok || !bounded {
-					vo.Status, vo.Got, vo.Pos = core.Violated, "at the store, v is only known to be "+av.String(), c.P.Pos(x.Pos())
+					vo.Status, vo.Got, vo.Pos = core.Violated, where+", v is only known to be "+av.String(), c.P.Pos(pos)
 				}
+			}
+			switch x := in.(type) {
+			case *ssa.IndexAddr:
+				if rootFieldOfAddr(x.X, recv) != lay.data {
+					return
+				}
+				checkIndex(x.Pos(), "at the access")
+			case *ssa.Store:
+				ia, isIA := x.Addr.(*ssa.IndexAddr)
+				if !isIA || rootFieldOfAddr(ia.X, recv) != lay.data || valParam == nil {
+					return
+				}
+				checkValue(x.Pos(), "at the store")
 			case *ssa.BinOp:
 				if x.Op == token.QUO || x.Op == token.REM {
 					if f := rootFieldOfAddr(loadAddr(stripConv(x.Y)), recv); f != "" {
@@ -205,8 +239,28 @@ func (c *Ctx) BitStorageGuards() []core.Ob {
 				if sc == nil || !inPkgs(sc, "level") || len(x.Common().Args) == 0 || x.Common().Args[0] != ssa.Value(recv) {
 					return
 				}
-				for _, f := range divisorFields(core.Origin(sc)) {
+				eff := helperEffects(core.Origin(sc), lay.data, 0)
+				for _, f := range eff.divisors {
 					checkNZ(f, x.Pos(), locAV, "the call of "+sc.Name()+" (which divides by it)")
+				}
+				// the packed longs are accessed inside the helper: the index (and the value) must have
+				// been validated before it is handed over
+				passes := func(p *ssa.Parameter) bool {
+					if p == nil {
+						return false
+					}
+					for _, a := range x.Common().Args {
+						if stripConv(a) == ssa.Value(p) {
+							return true
+						}
+					}
+					return false
+				}
+				if eff.reads && passes(idxParam) {
+					checkIndex(x.Pos(), "at the call of "+sc.Name()+" (which accesses the packed longs)")
+				}
+				if eff.writes && passes(valParam) {
+					checkValue(x.Pos(), "at the call of "+sc.Name()+" (which stores into the packed longs)")
 				}
 			}
 		})
@@ -243,6 +297,26 @@ func (c *Ctx) bitStorageLengthChecks() []core.Ob {
 		return append(obs, o)
 	}
 	o.Pos, o.Func = c.P.Pos(fx.Pos()), core.FnName(fx)
+	// len(b.data) compared with a call result of calcBitStorageSize
+	isLen := func(v ssa.Value) bool {
+		cl, ok := stripConv(v).(*ssa.Call)
+		if !ok {
+			return false
+		}
+		bi, ok := cl.Common().Value.(*ssa.Builtin)
+		return ok && bi.Name() == "len" && rootFieldOfAddr(loadAddr(cl.Common().Args[0]), fx.Params[0]) == lay.data
+	}
+	// the required size: computed (a call of a function of the package, or arithmetic), not a constant
+	isSize := func(v ssa.Value) bool {
+		switch x := stripConv(v).(type) {
+		case *ssa.Call:
+			sc := x.Common().StaticCallee()
+			return sc != nil && inPkgs(sc, "level")
+		case *ssa.BinOp:
+			return true
+		}
+		return false
+	}
 	var okBlocks []*ssa.BasicBlock
 	for _, b := range fx.Blocks {
 		if len(b.Instrs) == 0 {
@@ -255,26 +329,6 @@ func (c *Ctx) bitStorageLengthChecks() []core.Ob {
 		cmp, isCmp := iff.Cond.(*ssa.BinOp)
 		if !isCmp || (cmp.Op != token.EQL && cmp.Op != token.NEQ) {
 			continue
-		}
-		// len(b.data) compared with a call result of calcBitStorageSize
-		isLen := func(v ssa.Value) bool {
-			cl, ok := stripConv(v).(*ssa.Call)
-			if !ok {
-				return false
-			}
-			bi, ok := cl.Common().Value.(*ssa.Builtin)
-			return ok && bi.Name() == "len" && rootFieldOfAddr(loadAddr(cl.Common().Args[0]), fx.Params[0]) == lay.data
-		}
-		// the required size: computed (a call of a function of the package, or arithmetic), not a constant
-		isSize := func(v ssa.Value) bool {
-			switch x := stripConv(v).(type) {
-			case *ssa.Call:
-				sc := x.Common().StaticCallee()
-				return sc != nil && inPkgs(sc, "level")
-			case *ssa.BinOp:
-				return true
-			}
-			return false
 		}
 		if (isLen(cmp.X) && isSize(cmp.Y)) || (isLen(cmp.Y) && isSize(cmp.X)) {
 			eq := b.Succs[0]
@@ -314,6 +368,17 @@ func (c *Ctx) bitStorageLengthChecks() []core.Ob {
 				}
 			}
 			for _, vb := range vals {
+				// return check(len(b.data), size): nil only when the lengths are equal
+				if hc, ok := vb.v.(*ssa.Call); ok {
+					if sc := hc.Common().StaticCallee(); sc != nil {
+						for j, a := range hc.Common().Args {
+							if isLen(a) && eqChecker(sc, j) {
+								okBlocks = append(okBlocks, vb.b)
+								nNil++
+							}
+						}
+					}
+				}
 				if !isNilConst(vb.v) {
 					continue
 				}
